@@ -1029,6 +1029,12 @@ def run_loss_case(ctx, Q, hs, J, p, case):
 
     W_custom = [rand_spd(rng, m) for _ in range(model.K)]
     w_custom = [float(x) for x in rng.choice([0.2, 0.5, 1.5, 3.0, 7.0], size=model.K) * rng.uniform(0.8, 1.25, size=model.K)]
+    if model.K >= 2 and rng.random() < 0.4:
+        # a schedule switched off by a weight of exactly 0.0 (a falsy value: "missing" and "zero" must not be confused;
+        # missed seeded change C12-4); at least one weight stays positive
+        w_custom[int(rng.integers(0, model.K))] = 0.0
+    if model.K >= 2 and rng.random() < 0.25:
+        W_custom[int(rng.integers(0, model.K))] = np.zeros((m, m))
     pts = {"SE": eval_points(rng, model, mk, False), "RE": eval_points(rng, model, mk, True)}
     labels = {fam: [label_point(qt, v) for _, v in pts[fam]] for fam in pts}
     if case < 2:
